@@ -48,6 +48,37 @@ CHECKS["C01"] = dict(
     technique="static analysis: SSA dominance/value rules + AST error-discipline lint on the generator; go/types over instantiated corpus packages",
     design="§4 C01")
 
+S3NOTE = (" Programs quantifier: the generated packages analysed are instantiated from the CURRENT templates/generator for the repo's 43 specs plus /verif/corpus "
+          "(template define coverage is reported in evidence); within each program the rule covers all requests/values/paths. Generated code is never executed.")
+CHECKS["C03"] = dict(
+    text="Decompile-to-model: every route* function of every instantiated program is turned by a total recogniser into a trie model, which is compared with a reference "
+         "matcher built from the spec by an oracle independent of goag on an exhaustive space of abstract requests (all segment lists up to depth+1 over the spec's literals, "
+         "a fresh literal and the empty segment x methods x base-path near-misses). ServeHTTP is recognised structurally.",
+    note=TRUST + S3NOTE, technique="static analysis: AST/type-based decompilation of generated router to a finite model + exhaustive model-vs-oracle comparison", design="§4 C03")
+CHECKS["C11"] = dict(
+    text="Per program: authenticator types are mapped to the credential they read by decompiling their Auth method; the OR-combinator is recognised statement by statement "
+         "(next served exactly once, only after an accept, with the authenticator's request; else 401); for every operation leaf of the route model the credential set of its "
+         "authenticator list equals the effective requirement computed by the independent oracle. Holds for all credential combinations of each program.",
+    note=TRUST + S3NOTE, technique="static analysis: AST decompilation of generated auth code + set comparison with spec oracle", design="§4 C11")
+CHECKS["C14"] = dict(
+    text="Panic-obligation enumeration over every function of every instantiated package: index/slice sites discharged by the Go compiler's prove pass (check_bce residue) or by "
+         "checked guard idioms; no unchecked assertion/panic/variable division; map stores dominated by make; dynamic callees never from lookups; WriteHeader exactly once per "
+         "writer path (CFG min/max); ServeHTTP/authMiddlewareOr fully recognised; parser returns value xor error.",
+    note=TRUST + S3NOTE + " The compiler's prove pass is trusted as a sound discharger.", technique="static analysis: obligation enumeration on AST/SSA + compiler prove pass (check_bce) + go/cfg path counting", design="§4 C14")
+CHECKS["C16"] = dict(
+    text="Structural analysis of API.ServeHTTP (total recogniser): reverse index loop over rt.Middlewares inside `if hasPath` only, template stored in context before wrapping, "
+         "spec/not-found bypass; from the route model every operation leaf returns hasPath=true with its template and every CORS leaf false. Parametric in stack length; all requests.",
+    note=TRUST + S3NOTE, technique="static analysis: AST shape recognition of generated dispatcher + route-model leaf table", design="§4 C16")
+CHECKS["C17"] = dict(
+    text="CORS leaves of the decompiled route model compared, as duplicate-free sets, with the path item's declared methods and canonicalised header parameters + security headers "
+         "computed by the independent oracle; declared OPTIONS never shadowed; nil-handler guard present; no CORS artefacts when disabled.",
+    note=TRUST + S3NOTE, technique="static analysis: route-model evaluation + set comparison with spec oracle", design="§4 C17")
+CHECKS["C20"] = dict(
+    text="SSA scan of all functions of all instantiated packages for shared mutable state: package variables stored only in init and otherwise only loaded for read-only uses, "
+         "no stores through the shared API/Client receivers, no goroutines/sync, writer methods only on request-local storage. Absence of shared writes is sufficient for "
+         "race-freedom and isolation under every schedule (Go memory model); schedules themselves are not enumerated.",
+    note=TRUST + S3NOTE, technique="static analysis: SSA effect/ownership scan (stores, map updates, address escapes) with positive witnesses", design="§4 C20")
+
 NA_REASON = {}
 DEFAULT_NA = "not claimed yet: static checker for this property is still under construction (design in DESIGN.md §4)"
 
